@@ -242,6 +242,10 @@ def run_graph(ctx, gd, rng, K):
     for T in districts:
         Tl = [v for v in topo if v in T]
         forms = ["lemma1"]
+        # Q[T] is an expression; the topological order it was derived along need not be the one IDENTIFY is given
+        topo2 = random_topo(ref, rng)
+        if topo2 != topo:
+            forms += ["lemma1-other-order"] * 2
         if len(districts) == 1:
             forms.append("joint")
         k0 = len(topo) - len(Tl)
@@ -255,12 +259,18 @@ def run_graph(ctx, gd, rng, K):
             form = rng.choice(forms)
             kernel.LOG.reset_case({"graph": gd, "T": sorted(v.name for v in T), "C": sorted(v.name for v in C),
                                    "topo": [v.name for v in topo], "form": form, "tagged": tagged,
+                                   **({"topo2": [v.name for v in topo2]} if form == "lemma1-other-order" else {}),
                                    **({"history": CTX["history"]} if CTX.get("history") else {})})
             try:
                 if form == "lemma1":
                     with kernel.quiet():
                         qT = compute_c_factor_conditioning_on_topological_predecessors(district=Tl, graph_probability=joint,
                                                                                        topo=topo)
+                elif form == "lemma1-other-order":
+                    kernel.count("C17:Q[T]-derived-along-another-topological-order")
+                    with kernel.quiet():
+                        qT = compute_c_factor_conditioning_on_topological_predecessors(
+                            district=[v for v in topo2 if v in T], graph_probability=mk(topo2), topo=topo2)
                 elif form == "suffix-conditional":
                     from y0.dsl import Distribution
 
@@ -422,6 +432,11 @@ def replay(case):
         qT = mk(topo)
     elif case.get("form") == "suffix-conditional":
         qT = mk(topo)._new(Distribution(children=tuple(Tl), parents=tuple(topo[: len(topo) - len(Tl)])))
+    elif case.get("form") == "lemma1-other-order":
+        topo2 = [Variable(n) for n in case["topo2"]]
+        with kernel.quiet():
+            qT = compute_c_factor_conditioning_on_topological_predecessors(
+                district=[v for v in topo2 if v in T], graph_probability=mk(topo2), topo=topo2)
     else:
         with kernel.quiet():
             qT = compute_c_factor_conditioning_on_topological_predecessors(district=Tl, graph_probability=mk(topo),
